@@ -3,4 +3,5 @@ CONSTANTS
   PEERS = {"p1","p2"}
   CIDS = {"c1"}
   MaxOps = 3
-INVARIANTS E2EInv AllocInv
+  MaxOut = 1
+INVARIANTS E2EInv AllocInv ErrorKept
